@@ -226,6 +226,7 @@ func (rs *rowStore) memStoreSize() int {
 }
 
 func (rs *rowStore) insert(insert *insert) {
+	verifPoint(rs.t.db, rs.t.Name, "submit", insert.offset)
 	rs.inserts <- insert
 }
 
@@ -260,6 +261,7 @@ func (rs *rowStore) processInserts(offsetsBySource common.OffsetsBySource, stop 
 				if err != nil {
 					rs.t.log.Errorf("Unable to write updated offset: %v", err)
 				}
+				verifPoint(rs.t.db, rs.t.Name, "offsets-renamed", nil)
 				ms.offsetChanged = false
 			}
 
@@ -293,6 +295,7 @@ func (rs *rowStore) processInserts(offsetsBySource common.OffsetsBySource, stop 
 				rs.t.updateHighWaterMarkMemory(insert.vals.TimeInt())
 			}
 			rs.mx.Unlock()
+			verifPoint(rs.t.db, rs.t.Name, "applied", insert.offset)
 		case <-flushTimer.C:
 			rs.t.log.Trace("Requesting flush due to flush interval")
 			flush(false)
@@ -335,6 +338,7 @@ func (rs *rowStore) iterate(ctx context.Context, outFields core.Fields, includeM
 		ms = rs.memStore.copy()
 	}
 	rs.mx.RUnlock()
+	verifPoint(rs.t.db, rs.t.Name, "scan-snapshot", nil)
 	rs.mx.Lock()
 	rs.iterationsInProgress[fs.filename]++
 	rs.mx.Unlock()
@@ -389,6 +393,7 @@ func (rs *rowStore) doProcessFlush(ms *memstore, allowSort, allowFailure bool) (
 		rs.t.db.Panic(err)
 	}
 	defer out.Close()
+	verifPoint(rs.t.db, rs.t.Name, "flush-start", nil)
 
 	highWaterMark, rowCount, flushErr := fs.flush(out, rs.fields, nil, ms.offsetsBySource, ms, shouldSort, disallowRaw)
 	if flushErr != nil {
@@ -407,9 +412,11 @@ func (rs *rowStore) doProcessFlush(ms *memstore, allowSort, allowFailure bool) (
 		rs.t.db.Panic(flushErr)
 	}
 
+	verifPoint(rs.t.db, rs.t.Name, "flush-written", nil)
 	if syncErr := out.Sync(); syncErr != nil {
 		rs.t.db.Panic(syncErr)
 	}
+	verifPoint(rs.t.db, rs.t.Name, "flush-synced", nil)
 	fi, err := out.Stat()
 	if err != nil {
 		fs.t.log.Errorf("Unable to stat output file to get size: %v", err)
@@ -417,6 +424,7 @@ func (rs *rowStore) doProcessFlush(ms *memstore, allowSort, allowFailure bool) (
 	if closeErr := out.Close(); closeErr != nil {
 		rs.t.db.Panic(closeErr)
 	}
+	verifPoint(rs.t.db, rs.t.Name, "flush-closed", nil)
 
 	// Note - we left-pad the unix nano value to the widest possible length to
 	// ensure lexicographical sort matches time-based sort (e.g. on directory
@@ -425,6 +433,7 @@ func (rs *rowStore) doProcessFlush(ms *memstore, allowSort, allowFailure bool) (
 	if renameErr := os.Rename(out.Name(), newFileStoreName); renameErr != nil {
 		rs.t.db.Panic(renameErr)
 	}
+	verifPoint(rs.t.db, rs.t.Name, "flush-renamed", nil)
 	defer func() {
 		shasum, err := calcShaSum(newFileStoreName)
 		if err != nil {
@@ -440,6 +449,7 @@ func (rs *rowStore) doProcessFlush(ms *memstore, allowSort, allowFailure bool) (
 	rs.fileStore = fs
 	rs.memStore = ms
 	rs.mx.Unlock()
+	verifPoint(rs.t.db, rs.t.Name, "flush-swapped", nil)
 
 	flushDuration := time.Now().Sub(start)
 	if fi != nil {
@@ -661,19 +671,23 @@ func (rs *rowStore) writeOffsets(offsetsBySource common.OffsetsBySource) error {
 	}
 	defer out.Close()
 
+	verifPoint(rs.t.db, rs.t.Name, "offsets-start", nil)
 	err = rs.t.writeOffsets(out, offsetsBySource)
 	if err != nil {
 		return errors.New("Unable to write offsets: %v", err)
 	}
+	verifPoint(rs.t.db, rs.t.Name, "offsets-written", nil)
 
 	err = out.Sync()
 	if err != nil {
 		return errors.New("Unable to sync offset file: %v", err)
 	}
+	verifPoint(rs.t.db, rs.t.Name, "offsets-synced", nil)
 	err = out.Close()
 	if err != nil {
 		return errors.New("Unable to close offset file: %v", err)
 	}
+	verifPoint(rs.t.db, rs.t.Name, "offsets-closed", nil)
 
 	return os.Rename(out.Name(), filepath.Join(rs.opts.dir, offsetFilename))
 }
@@ -681,6 +695,7 @@ func (rs *rowStore) writeOffsets(offsetsBySource common.OffsetsBySource) error {
 func (rs *rowStore) removeOldFiles(stop <-chan interface{}) {
 	ticker := time.NewTicker(10 * time.Second)
 	defer ticker.Stop()
+	verifTicker(ticker, "remove-old-files")
 
 	for {
 		select {
@@ -714,10 +729,12 @@ func (rs *rowStore) removeOldFiles(stop <-chan interface{}) {
 					// Okay to delete now
 					name := filepath.Join(rs.opts.dir, filename)
 					rs.t.log.Debugf("Removing old file %v", name)
+					verifPoint(rs.t.db, rs.t.Name, "remove-before", nil)
 					err := os.Remove(name)
 					if err != nil {
 						rs.t.log.Errorf("Unable to delete old file store %v, still consuming disk space unnecessarily: %v", name, err)
 					}
+					verifPoint(rs.t.db, rs.t.Name, "remove-after", nil)
 				}
 			}
 		}
